@@ -150,6 +150,13 @@ def collect_buckets(body, notes):
                         arm = ast.If(test=cur.test, body=cur.body, orelse=[])
                         arm.lineno = cur.lineno
                         add(k, arm, cur, "arm")
+                        nested = [x for x in cur.body if isinstance(x, ast.If) and len(kinds_in(x.test)) == 1 and not (kinds_in(x.test) & {k})
+                                  and kinds_in_list(x.body) <= kinds_in(x.test)]
+                        if nested:
+                            k2 = next(iter(kinds_in(nested[0].test)))
+                            notes.append((nested[0], "NESTED-KIND: the whole %s block (`if %s:` ...) sits INSIDE the branch taken only when `%s` holds: for an object with %ss but no %ss "
+                                          "the %s step is silently skipped (its sibling blocks are not nested in one another)" % (
+                                              k2, ast.unparse(nested[0].test)[:50], ast.unparse(cur.test)[:50], k2, k, k2)))
                         notes.append((cur, "branch selected by a %s test handles other kinds %s" % (k, sorted(kb - {k}))))
                     else:
                         split_expr(cur.test, cur, "test") if kt else None
